@@ -99,6 +99,9 @@ inductive Node
   | fail (e : List Nat)
   | word (n : Nat) (bits : List Bool)
   | jet (name : String)
+  /-- a hidden node of the wire format (only ever the child of a case node); in plans that were
+  converted for type inference it is an unreferenced placeholder that keeps wire indices aligned -/
+  | hidden (h : Nat)
 deriving Repr, BEq, Inhabited
 
 abbrev Plan := Array Node
@@ -140,6 +143,7 @@ def parseNode (i : Nat) (tok : String) : Option Node :=
       let n ← n.toNat?; let bs ← Drv.bits? bits
       if n ≤ 20 ∧ bs.length = 2 ^ n then some (.word n bs) else none
   | ["jet", name] => some (.jet name)
+  | ["hidden", h] => .hidden <$> hash? h
   | _ => none
 
 /-- `<n> <node_0> … <node_{n-1}> rest…` -/
